@@ -64,12 +64,15 @@ def Darsia.Sig.DType.show : DType → String
   | .u8 => "u8" | .u16 => "u16" | .i64 => "i64" | .f32 => "f32" | .f64 => "f64" | .bool => "bool"
 
 /-- operational call: label VALUES per pixel, element type of the signal; response `<dtype> v ..` -/
-def showOut (r : Except Err (List M)) (d : DType) (sig : List Pixel) : String :=
+def showCall (ms : List M) (d : DType) (sig : List Pixel) : String :=
+  let out := callAll ms (sig.map (·.label)) d (sig.map (·.val))
+  out.1.show ++ " " ++ showRats out.2
+
+/-- a failing update: only the error class is compared (the state the code leaves behind is not part of C14) -/
+def showOut (old : List M) (r : Except Err (List M)) (d : DType) (sig : List Pixel) : String :=
   match r with
-  | .error e => e.show
-  | .ok ms =>
-    let out := callAll ms (sig.map (·.label)) d (sig.map (·.val))
-    out.1.show ++ " " ++ showRats out.2
+  | .error e => let _ := old; e.show
+  | .ok ms => showCall ms d sig
 
 def pRun : P String := do
   let mode ← P.tok
@@ -79,14 +82,14 @@ def pRun : P String := do
   bar; let u ← pUpd; bar; let sig ← pPix; P.done
   if mode = "comb" then
     match u with
-    | .skip => pure (showOut (.ok ms) d sig)
-    | .all ps => pure (showOut (updateAll ms ps) d sig)
-    | .sub dofs ps => pure (showOut (updateSubset ms dofs ps) d sig)
+    | .skip => pure (showOut ms (.ok ms) d sig)
+    | .all ps => pure (showOut ms (updateAll ms ps) d sig)
+    | .sub dofs ps => pure (showOut ms (updateSubset ms dofs ps) d sig)
   else
     match ms, u with
-    | [m], .skip => pure (showOut (.ok [m]) d sig)
-    | [m], .all ps => pure (showOut ((m.update ps .all).map fun r => [r.1]) d sig)
-    | [m], .sub [(_, spec)] ps => pure (showOut ((m.update ps spec).map fun r => [r.1]) d sig)
+    | [m], .skip => pure (showOut [m] (.ok [m]) d sig)
+    | [m], .all ps => pure (showOut [m] ((m.update ps .all).map fun r => [r.1]) d sig)
+    | [m], .sub [(_, spec)] ps => pure (showOut [m] ((m.update ps spec).map fun r => [r.1]) d sig)
     | _, _ => failure
 
 def pMaskL (n : Nat) : P (Option (List Bool)) := do
@@ -153,6 +156,14 @@ def pKOp : P KOp := do
 
 open Darsia.Kern in
 def showPts (l : List Pt) : String := " ; ".intercalate (l.map showRats)
+
+open Darsia.Kern in
+def showState (st : KState) : String :=
+    let w := match st.weights with
+      | none => "W none"
+      | some (key, vals) => s!"W {key.1} ; " ++ showPts key.2 ++ " ; " ++ showRats vals
+    s!"{st.kernel} | {st.numSupports} | " ++ (match st.supports with | some S => showPts S | none => "none") ++ " | "
+      ++ (match st.values with | some V => showRats V | none => "none") ++ " | " ++ w
 
 open Darsia.Kern in
 def runShow (st : KState) : List KOp → Nat → String
